@@ -93,6 +93,80 @@ GROUPS["writer_digits"] = dict(_WRITER_COMMON, **{
     ],
 })
 
+# --------------------------------------------------------------------------------------------
+# engine R (reader model) + T0 harnesses for flussab::text
+
+_MODEL = {
+    "replace": [("flussab/src/deferred_reader.rs", "harness/flussab/reader_model.rs")],
+    "append_text": [("flussab/src/lib.rs", "#[cfg(kani)]\npub use deferred_reader::{ModelState, Refill, N as MODEL_N};")],
+    "params_crates": ["flussab"],
+}
+
+def _types(fmt, types, **kw):
+    return [(fmt % t, dict(kw, what=kw.get("what", "") + " [" + t + "]")) for t in types]
+
+_ALLT = ["i8", "u8", "i16", "u16", "i32", "u32", "i64", "u64", "isize", "usize", "i128", "u128"]
+
+GROUPS["text_t0"] = dict(_MODEL, **{
+    "name": "text_t0",
+    "package": "flussab",
+    "prefix": "text::verif_text::",
+    "overlay": [("flussab/src/text.rs", "text", "harness/flussab/text_t0.rs")],
+    "params": {"quick": {"N": 8}, "thorough": {"N": 12}},
+    "flags_tier": {"quick": ["--default-unwind", "10"], "thorough": ["--default-unwind", "14"]},
+    "timeout": {"quick": 1200, "thorough": 5400},
+    "harnesses": (
+        [("swar_kernel_all_words", {"props": ["C13", "C01"], "cost": 5, "what": "swar_ascii_digits_u64_le == byte-wise reference for all 2^64 words"})]
+        + _types("digits_simple_%s", ["i8", "u8", "i16", "u16"], props=["C13", "C06", "C05"], cost=4, what="ascii_digits vs wide-arithmetic reference")
+        + _types("digits_simple_%s", ["i32", "u32", "i64", "u64", "isize", "usize", "i128", "u128"], props=["C13", "C06"], cost=4, tiers=T, what="ascii_digits vs reference")
+        + _types("signed_simple_%s", ["i8", "u8", "i16", "u16"], props=["C13", "C06", "C05"], cost=5, what="signed_ascii_digits vs reference (lone minus, exact overflow)")
+        + _types("signed_simple_%s", ["i32", "u32", "i64", "u64", "isize", "usize", "i128", "u128"], props=["C13", "C06"], cost=5, tiers=T, what="signed_ascii_digits vs reference")
+        + _types("multi_eq_%s", ["u8", "i32", "usize"], props=["C13", "C01", "C09"], cost=6, what="ascii_digits_multi == ascii_digits for all contents, offsets, buffered amounts, schedules")
+        + _types("multi_eq_%s", ["i8", "i16", "u16", "u32", "i64", "u64", "isize", "i128", "u128"], props=["C13", "C01"], cost=6, tiers=T, what="ascii_digits_multi == ascii_digits")
+        + _types("smulti_eq_%s", ["i8", "u8", "i16"], props=["C13", "C01", "C09"], cost=7, what="signed_ascii_digits_multi == signed_ascii_digits")
+        + _types("smulti_eq_%s", ["i32", "isize", "u16", "u32", "i64", "u64", "usize", "i128", "u128"], props=["C13", "C01"], cost=9, tiers=T, what="signed_ascii_digits_multi == signed_ascii_digits")
+        + _types("cont_pos_%s", ["i8", "i64", "u64"], props=["C13"], cost=3, what="ascii_digits_cont_pos from an arbitrary accumulated value: exact at the overflow boundary")
+        + _types("cont_neg_%s", ["i8", "i64", "isize"], props=["C13"], cost=3, what="ascii_digits_cont_neg from an arbitrary accumulated value")
+        + _types("cont_pos_%s", ["u8", "i16", "u16", "i32", "u32", "isize", "usize", "i128", "u128"], props=["C13"], cost=3, tiers=T, what="ascii_digits_cont_pos full width")
+        + _types("cont_neg_%s", ["u8", "i16", "u16", "i32", "u32", "u64", "usize", "i128", "u128"], props=["C13"], cost=3, tiers=T, what="ascii_digits_cont_neg full width")
+        + [
+            ("raw_load_in_bounds_unsigned", {"props": ["C14"], "cost": 3, "what": "8-byte load of ascii_digits_multi stays inside the buffered data (window fills the array)"}),
+            ("raw_load_in_bounds_signed", {"props": ["C14"], "cost": 3, "what": "8-byte load of signed_ascii_digits_multi stays inside the buffered data"}),
+            ("helper_tabs_or_spaces", {"props": ["C16", "C07"], "cost": 3, "what": "tabs_or_spaces: maximal run, no consumption, look-ahead bound"}),
+            ("helper_newline", {"props": ["C16", "C07"], "cost": 2, "what": "newline: LF / CRLF / lone CR / CR at end"}),
+            ("helper_next_newline", {"props": ["C16"], "cost": 3, "what": "next_newline: just past next LF or end of input"}),
+            ("helper_fixed", {"props": ["C16"], "cost": 3, "what": "fixed(pattern of 0..4 symbolic bytes): all-or-nothing, stops at first mismatch"}),
+            ("line_reader_give_up", {"props": ["C04", "C08", "C05"], "cost": 2, "what": "give_up/give_up_at: parked I/O error wins; line/column arithmetic"}),
+            ("line_reader_new_and_line_at_offset", {"props": ["C08"], "cost": 1, "what": "LineReader::new / line_at_offset"}),
+            ("reach_text", {"props": ["C13", "C16", "C01"], "kind": "reach", "cost": 3, "what": "vacuity twin"}),
+        ]
+    ),
+})
+
+PROPERTIES["C13"] = {
+    "level": "model_checking",
+    "groups": ["text_t0"],
+    "claim": "SAT-based bounded model checking of the real scanners in flussab::text: the 8-byte kernel for all 2^64 words; simple scanners against an independent wide-arithmetic reference for every window content, length, cursor, offset and buffered amount; optimised == simple for every content and every amount of buffered data; continuation helpers from an arbitrary accumulated value (full-width overflow boundary for every integer type).",
+    "level_note": "Window of N bytes (8 quick / 12 thorough), offsets 0..2. The scanners run on the reader model R whose soundness w.r.t. the real reader is the C02 check. Full-width overflow of 32/64/128-bit types in the *simple* scanners is covered through the continuation helpers (same accumulation code shape) and the generic source being identical across instantiations, not by a 20/40-digit window.",
+    "functions": ["flussab::text::{ascii_digits, signed_ascii_digits, ascii_digits_multi, signed_ascii_digits_multi, ascii_digits_multi_cold, signed_ascii_digits_multi_cold, ascii_digits_cont_pos, ascii_digits_cont_neg, swar_ascii_digits_u64_le}"],
+    "explanation": "Each harness runs the real function on a symbolic window and compares value, overflow verdict and returned offset with a reference written in the harness (u128 accumulation / checked arithmetic); the amount of buffered data and every refill size are solver variables, which selects fast or cold path.",
+    "bounds_note": "N-byte window, offset <= 2; absolute position base < usize::MAX/2",
+    "outside": ["digit runs longer than N bytes in the simple scanners for 32/64/128-bit types (see level_note)"],
+    "assumptions": ["reader model R over-approximates the real reader (C02)"],
+}
+
+PROPERTIES["C16"] = {
+    "level": "model_checking",
+    "groups": ["text_t0"],
+    "claim": "SAT-based bounded model checking of tabs_or_spaces, newline, next_newline and fixed on a fully symbolic window, start offset and (for fixed) pattern, with every refill schedule: returned offset equals the documented pattern length, nothing is consumed, and the ghost high-water mark of requested offsets never exceeds the deciding byte.",
+    "level_note": "Window N bytes, start offsets 0..3, patterns of 0..4 symbolic bytes; look-ahead is measured on the reader model's ghost counter, which C02/C09 tie to real reads (a request for offset k causes reads only until byte k is buffered).",
+    "functions": ["flussab::text::{tabs_or_spaces, newline, next_newline, fixed}"],
+    "explanation": "Reference scanners are plain loops over the window; look-ahead bound: hw <= start + index of deciding byte + 1.",
+    "bounds_note": "N-byte window; offsets <= 3; pattern length <= 4",
+    "outside": ["inputs longer than the window (the functions are memoryless per byte)"],
+    "assumptions": ["reader model R over-approximates the real reader (C02)"],
+}
+
 PROPERTIES["C11"] = {
     "level": "model_checking",
     "groups": ["writer_step", "writer_digits"],
